@@ -22,12 +22,12 @@ const (
 )
 
 var (
-	ErrProof    = errorsmod.Register("verif", 2, "scripted proof verdict: invalid")
-	ErrLcTs     = errorsmod.Register("verif", 3, "scripted timestamp-at-height: not found")
-	ErrApp      = errorsmod.Register("verif", 4, "scripted application callback error")
-	ErrLcMsg    = errorsmod.Register("verif", 5, "scripted client message verdict: invalid")
-	ErrLcInit   = errorsmod.Register("verif", 6, "scripted initialize error")
-	ErrLcRecov  = errorsmod.Register("verif", 7, "scripted recover error")
+	ErrProof   = errorsmod.Register("verif", 2, "scripted proof verdict: invalid")
+	ErrLcTs    = errorsmod.Register("verif", 3, "scripted timestamp-at-height: not found")
+	ErrApp     = errorsmod.Register("verif", 4, "scripted application callback error")
+	ErrLcMsg   = errorsmod.Register("verif", 5, "scripted client message verdict: invalid")
+	ErrLcInit  = errorsmod.Register("verif", 6, "scripted initialize error")
+	ErrLcRecov = errorsmod.Register("verif", 7, "scripted recover error")
 )
 
 // VerifCall records one verification request made by ibc-go to the light client.
@@ -139,7 +139,9 @@ func (l *LightClient) VerifyClientMessage(ctx sdk.Context, clientID string, clie
 	}
 	return nil
 }
-func (*LightClient) CheckForMisbehaviour(sdk.Context, string, exported.ClientMessage) bool { return false }
+func (*LightClient) CheckForMisbehaviour(sdk.Context, string, exported.ClientMessage) bool {
+	return false
+}
 func (*LightClient) UpdateStateOnMisbehaviour(sdk.Context, string, exported.ClientMessage) {}
 func (*LightClient) UpdateState(sdk.Context, string, exported.ClientMessage) []exported.Height {
 	return []exported.Height{}
